@@ -2,7 +2,7 @@
 # run every check of a tier sequentially; prints one summary line per check
 cd "$(dirname "$0")/.." || exit 2
 tier=${1:-quick}
-for i in 01 02 03 04 05 06 07 08 09 10 11 12 13 14 15 16 17 18 19 20; do
+for i in ${CHECKS:-01 02 03 04 05 06 07 08 09 10 11 12 13 14 15 16 17 18 19 20}; do
   start=$(date +%s)
   timeout ${2:-1500} ./check C$i $tier > /tmp/drfverif_C$i.out 2>&1
   rc=$?
